@@ -628,6 +628,9 @@ func runC14(r *core.Run) {
 		c14Thorough(r)
 	}
 	if r.Variant == "" {
+		// the whole workload once more in the GOARCH=386 build of this monitor (see ./check)
+		r.RunVariantChild("arch386@16", 30*time.Minute, false)
+		r.Obs("arch386_child", "run")
 		for _, v := range append([]string{"encfirst+rev@3", "decfirst@1", "warm@4"}, burstVariants...) {
 			r.RunVariantChild(v, 10*time.Minute, false)
 		}
